@@ -21,6 +21,7 @@ import SqiModel.Drv.Quat
      id.certisom p L1 L2 E         -> 0/1   L1·E = L2
      id.certleft p O L             -> 0/1   O·L ⊆ L
      id.certorder p O              -> ring disc_is_p2
+     id.certtransx p I1 I2 O T     -> 0/1   I1·T ⊆ I2 and conj(I1)·I2 ⊆ N(I1)·T  (T is exactly the transporter)
      id.certnorm I O               -> 0/1   N(I)² · covol(O) = covol(I)
      id.certgen p I O E            -> 0/1   O·E + O·N(I) = I -/
 namespace SqiModel.Drv.Ideal
@@ -95,6 +96,9 @@ def handleInts : String → List Int → Option String
   | "id.certleft", p :: l => do
       let (o, l) ← latOf l; let (i, _) ← latOf l
       pure (b01 (isLeftIdealCert p o i))
+  | "id.certtransx", p :: l => do
+      let (l1, n1, l) ← idealOf l; let (l2, n2, l) ← idealOf l; let (o, l) ← latOf l; let (t, _) ← latOf l
+      pure (b01 (isRightTransporterExact p ⟨l1, n1, o⟩ ⟨l2, n2, o⟩ t))
   | "id.certnorm", l => do
       let (l1, n1, l) ← idealOf l; let (o, _) ← latOf l
       pure (b01 (normCovolOk ⟨l1, n1, o⟩))
